@@ -215,6 +215,16 @@ def run_series_group(case, ctx):
             if got != exp:
                 ctx.violation('series.iter_group_items.apply', **info, got=got, expected=exp)
             apply_forms(ctx, 'series.iter_group', s.iter_group_items, s.iter_group, len, items, info)
+            # the same values under a hierarchical and a date index: groups keep their labels, results are labelled by the group keys (values, not labels)
+            for iname, ix in (('hier', sf.IndexHierarchy.from_labels([('u', i) if i < 2 else ('v', i) for i in range(n)])), ('date', sf.IndexDate([np.datetime64('2020-01-01') + np.timedelta64(i, 'D') for i in range(n)]))):
+                s_ = sf.Series(arr(vec, DT[alpha]), index=ix, name='nm')
+                try:
+                    items_ = list(s_.iter_group_items())
+                    if [pykey(k) for k, _ in items_] != [pykey(k) for k, _ in items] or [len(g) for _, g in items_] != [len(g) for _, g in items]:
+                        ctx.violation(f'series.iter_group_items|{iname}-index|differs-from-flat-index', **info)
+                    apply_forms(ctx, f'series.iter_group|{iname}-index', s_.iter_group_items, s_.iter_group, len, items_, info)
+                except Exception as e:
+                    ctx.violation(f'series.iter_group|{iname}-index|raises|{type(e).__name__}', **info, error=repr(e))
         ctx.outcome('series_group')
     ctx.sample({'family': 'series_group', 'alphabet': alpha, 'n': n}, limit=1)
 
@@ -284,6 +294,21 @@ def run_frame_group(case, ctx):
                 ctx.violation(f'frame.iter_group_items.apply|raises|{type(e).__name__}|nk={nk}', **info, error=repr(e))
             apply_forms(ctx, f'frame.iter_group|axis={axis}|nk={nk}', lambda: f.iter_group_items(label, axis=axis), lambda: f.iter_group(label, axis=axis),
                         lambda g: g.shape[axis], items, info)
+        if nk == 1 and n:
+            # the same single key given as a one-element list: groups are the same, keys are 1-tuples (both axes)
+            try:
+                items_l = list(f.iter_group_items([label], axis=axis))
+                check_partition(ctx, f'frame.iter_group_items|axis={axis}|one-element-list-key', items_l, [(k,) for k in keys], member_labels, rows, sub_labels, sub_rows, info)
+            except Exception as e:
+                ctx.violation(f'frame.iter_group|one-element-list-key|raises|{type(e).__name__}|axis={axis}', **info, error=repr(e))
+            if axis == 1 and n:
+                # two key rows on axis 1: the key of a column is the pair of its cells in those rows
+                try:
+                    keys2 = [(row0[j], row0[(j + 1) % n]) for j in range(n)]
+                    items_2 = list(f.iter_group_items(['r0', 'r1'], axis=1))
+                    check_partition(ctx, 'frame.iter_group_items|axis=1|two-key-rows', items_2, keys2, member_labels, rows, sub_labels, sub_rows, info)
+                except Exception as e:
+                    ctx.violation(f'frame.iter_group|axis=1|two-key-rows|raises|{type(e).__name__}', **info, error=repr(e))
         ctx.outcome(fam)
     ctx.sample({'family': fam, 'alphabets': alphas, 'n': n, 'layout': li, 'axis': axis}, limit=1)
 
